@@ -54,6 +54,14 @@ def generate(seed, tier):
     if through_node and rng.random() < 0.08:
         msgs = [{'kind': 'hello', 'a': rng.randrange(1000), 'n': 0}, {'kind': 'burst_getpeers', 'a': rng.randrange(1000), 'n': rng.randrange(0, 4)}]
         tail = None
+    store_fault = False
+    if through_node and rng.random() < 0.15:
+        # valid blocks for a node with a real store that fails once while the first of them is flushed
+        store_fault = True
+        msgs = [{'kind': 'hello', 'a': rng.randrange(1000), 'n': 0}, {'kind': 'getpeers', 'a': 1, 'n': 0},
+                {'kind': 'data_block_valid', 'a': 0, 'n': 0}, {'kind': 'getpeers', 'a': 2, 'n': 0},
+                {'kind': 'data_block_valid', 'a': 1, 'n': 0}, {'kind': 'getpeers', 'a': 3, 'n': 0}]
+        tail = None
     if through_node:
         # streams that cross the node's 1024-byte reads, and legal messages the handlers do not serve
         if rng.random() < 0.6:
@@ -61,7 +69,13 @@ def generate(seed, tier):
         if rng.random() < 0.4:
             msgs.insert(rng.randrange(len(msgs) + 1), {'kind': 'getdata_unserved', 'a': rng.randrange(1000), 'n': 0})
             msgs.append({'kind': 'getpeers', 'a': 2, 'n': 0})
-    return {'config': {'tail': tail, 'cuts_seed': rng.getrandbits(32), 'exhaustive_limit': 520, 'through_node': through_node}, 'ops': msgs}
+        elif rng.random() < 0.3:
+            # a message whose handler hangs up, with further frames right behind it (in the same read, or not)
+            msgs.insert(rng.randrange(len(msgs) + 1), {'kind': 'inv_big', 'a': rng.randrange(1000), 'n': rng.randrange(0, 3)})
+            msgs.append({'kind': 'getpeers', 'a': 3, 'n': 0})
+            msgs.append({'kind': 'data_tx', 'a': rng.randrange(1000), 'n': 0})
+    return {'config': {'tail': tail, 'cuts_seed': rng.getrandbits(32), 'exhaustive_limit': 520, 'through_node': through_node,
+                       'store_fault': store_fault}, 'ops': msgs}
 
 
 def ref_frames(stream: bytes, decodable):
@@ -147,6 +161,11 @@ def build_stream(script):
             continue
         elif k == 'data_block_max':
             msg = M.DataMessage(M.DATA_BLOCK, _max_size_block())
+        elif k == 'data_block_valid':
+            msg = M.DataMessage(M.DATA_BLOCK, _easy_world()['b2' if a % 2 == 0 else 'b3'])
+        elif k == 'inv_big':
+            # an inventory above the 500 items the node accepts: the handler ends the connection
+            msg = M.InventoryMessage([M.InventoryItem(M.DATA_BLOCK, bytes([(a + j) % 256, j % 256]) * 16) for j in range(501 + n * 7)])
         elif k == 'peers_mid':
             msg = M.PeersMessage([M.Peer(a + j, IPv6Address('::ffff:10.2.%d.%d' % (j % 250, a % 250)), 2412) for j in range(40 + n * 25)])
         elif k == 'inv':
@@ -231,7 +250,25 @@ class _Recorder:
         self.got.append(header.serialize() + message.serialize())
 
 
-def feed_node(stream, cuts, seed):
+_EASY = {}
+
+
+def _easy_world():
+    """Genesis + trusted easy-target block 1, and two valid blocks on top (deterministic; built once per process)."""
+    if 'cs' not in _EASY:
+        from simkit.core import Result as _R, Trace as _T
+        from engines.ledger import LedgerSim
+        from world import ledger as W
+        env.use_fast_scrypt(True)
+        sim = LedgerSim({'base': 'hlow_easy'}, PROP, _R(), _T())
+        b2 = W.roundtrip(W.mine_honest(sim.cs, [], W.key(2), sim.cs.head().timestamp + 60))
+        cs2 = sim.cs.add_block_no_validation(b2)
+        b3 = W.roundtrip(W.mine_honest(cs2, [], W.key(3), b2.header.summary.timestamp + 60))
+        _EASY.update({'cs': sim.cs, 'b2': b2, 'b3': b3})
+    return _EASY
+
+
+def feed_node(stream, cuts, seed, store_fault=False):
     """The same stream through a whole node: a peer's connection on the simulated network delivers it in segments ending
     at the given offsets (each segment has arrived and was read before the next is sent); LocalPeer's own read loop, the
     receiver and the real message handlers run.  Returns the list of dispatched (header, message) encodings."""
@@ -251,8 +288,27 @@ def feed_node(stream, cuts, seed):
         return orig(self, header, message)
     ConnectedRemotePeer.handle_message_received = recording
     try:
-        node = SimNode(k, 'N', '10.0.0.1', port=2412, store_path=None)
-        node.boot(CoinState.zero(), peers=[])
+        if store_fault:
+            # a node with a real (in-memory) store whose chain the stream's blocks extend; the store fails ONCE ("database is
+            # locked") when the first relayed block is flushed
+            import sqlite3
+            from engines.ledger import reset_horizon
+            env.use_fast_scrypt(True)
+            reset_horizon(True)
+            node = SimNode(k, 'N', '10.0.0.1', port=2412, store_path=':memory:')
+            node.boot(_easy_world()['cs'], peers=[])
+            real_flush = node.lp.disk_interface.flush_blocks
+            fired = {'n': 0}
+
+            def faulty_flush():
+                fired['n'] += 1
+                if fired['n'] == 1:
+                    raise sqlite3.OperationalError('database is locked')
+                return real_flush()
+            node.lp.disk_interface.flush_blocks = faulty_flush
+        else:
+            node = SimNode(k, 'N', '10.0.0.1', port=2412, store_path=None)
+            node.boot(CoinState.zero(), peers=[])
         # the peer only reads: nothing but the stream's own bytes travels towards the node
         bot = Bot(k, 'bot', '10.0.1.1', {'greet': False, 'silent': True, 'my_port': 0})
         c = bot.connect(('10.0.0.1', 2412))
@@ -268,6 +324,13 @@ def feed_node(stream, cuts, seed):
     finally:
         ConnectedRemotePeer.handle_message_received = orig
         sh.uninstall()
+        if store_fault:
+            from engines.ledger import reset_horizon as _rh
+            _rh(False)
+            try:
+                node.store.close()
+            except Exception:
+                pass
     return got, err
 
 
@@ -388,7 +451,10 @@ def execute(script):
         # the same statement one level up: through LocalPeer's read loop and the real handlers.  What is dispatched when the
         # stream arrives in one piece is the yardstick (handlers may end the connection; that too depends on bytes only)
         seed = script.get('seed', 0)
-        base_got, err = feed_node(stream, [], seed)
+        sf_ = bool(script['config'].get('store_fault'))
+        base_got, err = feed_node(stream, [], seed, sf_)
+        if sf_:
+            res.bump('fault:store_failed_once_during_stream')
         res.bump('node_level_streams')
         if err:
             res.violate(PROP, 'C11/exception-left-event-loop', '%s: %s' % err[:2])
@@ -410,10 +476,20 @@ def execute(script):
             kk = rng.choice([1, 2, 3, 5])
             cutsets.append(tuple(sorted({rng.randrange(1, n) for _ in range(kk)})) if n > 1 else ())
         cutsets.append(tuple(range(1, min(n, 40))))      # the first bytes one by one
+        ends, off_ = [], 0
+        while off_ + 8 <= n:
+            ln_ = struct.unpack('>I', stream[off_ + 4:off_ + 8])[0]
+            if ln_ > n:
+                break
+            off_ += 8 + ln_
+            if 0 < off_ < n:
+                ends.append(off_)
+        for e_ in ends[:6]:
+            cutsets.insert(0, (e_,))                     # a read that ends exactly where a frame ends
         for cs_ in cutsets[:40]:
             if not ok:
                 break
-            got_n, err = feed_node(stream, cs_, seed)
+            got_n, err = feed_node(stream, cs_, seed, sf_)
             res.bump('node_level_cuts')
             if any(x % 1024 == 0 for x in cs_):
                 res.bump('probe:segment_exactly_fills_a_read')
